@@ -150,5 +150,8 @@ package parsigdb
 //@ func (db *MemDB) Trim
 //@ props C07
 //@ callreq delete: ncalls(db.mu.Lock) == ncalls(db.mu.Unlock) + 1
+// only what is indexed under the expired duty goes: its entries, then its index
+//@ callreq delete#1: a2 == key && $i < len(db.keysByDuty[duty]) && db.keysByDuty[duty][$i] == key
+//@ callreq delete#2: a2 == duty
 //@ loop 1 invariant ncalls(db.mu.Lock) == ncalls(db.mu.Unlock)
 //@ loop 2 invariant ncalls(db.mu.Lock) == ncalls(db.mu.Unlock) + 1
